@@ -79,6 +79,7 @@ LogMachine = log_machine_base()
 class TrajMachine(LogMachine):
     def setup(self):
         self.pool = []  # [(traj, Model)]
+        self.kept = []
         self.flags = {'disp_switch': False, 'derive_after_switch': False, 'read_after_derive': False, 'extend': 0, 'derive': 0}
 
     # ------------------------------------------------------------------ interpreter
@@ -148,7 +149,10 @@ class TrajMachine(LogMachine):
             if got.shape != want.shape or (not tie and np.abs(got - want).max() > 1e-9 * scale):
                 raise Violation('query-value', f'mean_squared_displacement shape {got.shape} vs {want.shape} / values')
         elif what == 'diffusivity':
-            got = float(gcall(gcall(t.metrics).tracer_diffusivity, dimensions=3))
+            mo = gcall(t.metrics)
+            if len(self.kept) < 2:
+                self.kept.append(mo)  # a caller may well hold on to a metrics object while working with derived trajectories
+            got = float(gcall(mo.tracer_diffusivity, dimensions=3))
             self.flags['disp_switch'] = True
             want = float(np.mean(np.sum((cum[-1] @ m.matrix) ** 2, axis=-1))) * 1e-20 / (6 * T * m.dt)
             if not tie and abs(got - want) > 1e-9 * max(abs(want), 1e-20 * float(np.sum(m.matrix**2, axis=1).max()) / (6 * T * m.dt)):
